@@ -2414,8 +2414,9 @@ class StridedInterval:
             # All positive numbers
             return self.zero_extend(new_length)
         if msb == [1] and self.lower_bound <= self.upper_bound:
-            # All negative numbers
-            si = self.copy()
+            # All negative numbers. The value changes, so the result must not keep the name (`eq` takes equal names
+            # for the same value)
+            si = self.nameless_copy()
             si._bits = new_length
             mask = (2**new_length - 1) - (2**self.bits - 1)
             si._lower_bound |= mask
